@@ -721,7 +721,7 @@ class Arbiter(object):
             raise AlreadyExist("%r already exist" % name)
 
         if not name:
-            return ValueError("command name shouldn't be empty")
+            raise ValueError("command name shouldn't be empty")
 
         watcher = Watcher(name, cmd, **kw)
         if self.evpub_socket is not None:
